@@ -51,12 +51,33 @@ def _values(t, rng, n, text_domain=False):
     while len(out) < n and tries < n * 6:
         tries += 1
         v = F.gen_value(t, rng)
+        if text_domain:
+            v = _edge_bytes(t, v, rng)
         if isinstance(t, W.Struct) and not W.greedy_aligned(t, v):
             continue
         if text_domain and not T.in_domain(t, v):
             continue
         out.append(v)
     return out
+
+
+EDGE_BYTES = [0x00, 0x07, 0x0a, 0x1f, 0x20, 0x22, 0x5c, 0x7e, 0x7f, 0x80, 0xff]
+
+
+def _edge_bytes(t, v, rng):
+    """text rendering: bytes fields get the edges of the printable range (0x1f/0x20, 0x7e/0x7f/0x80), quotes and backslash"""
+    if isinstance(t, W.Bytes) and isinstance(v, (bytes, bytearray)) and v and rng.random() < 0.6:
+        return bytes(rng.choice(EDGE_BYTES) for _ in v)
+    if isinstance(t, W.Struct) and isinstance(v, dict):
+        return {k: _edge_bytes(f.ty, v[k], rng) if k in v else v.get(k) for f in t.fields for k in [f.name] if k in v}
+    if isinstance(t, W.Array) and isinstance(v, list):
+        return [_edge_bytes(t.elem, x, rng) for x in v]
+    if isinstance(t, W.Optional) and v is not None:
+        return _edge_bytes(t.base, v, rng)
+    if isinstance(t, W.Union) and isinstance(v, tuple):
+        arm = [a for a in t.arms if a.disc == v[0]]
+        return (v[0], _edge_bytes(arm[0].ty, v[1], rng)) if arm else v
+    return v
 
 
 def _corruptions(b, rng):
